@@ -1,3 +1,4 @@
+import Std.Data.HashSet
 /-!
 # C19 — model of `pysmt/solvers/portfolio.py` as a labelled transition system
 
@@ -63,19 +64,19 @@ namespace PySMT.Portfolio
 inductive Exn
   | solverError          -- any exception other than "unknown"
   | unknown              -- SolverReturnedUnknownResultError
-  deriving DecidableEq, Repr
+  deriving DecidableEq, Repr, Hashable
 
 /-- what a member's `solve()` call ends with -/
 inductive Beh
   | answer (v : Bool)
   | raise (e : Exn)
   | crash                -- dies without a message
-  deriving DecidableEq, Repr
+  deriving DecidableEq, Repr, Hashable
 
 inductive Msg
   | ans (i : Nat) (v : Bool)
   | exn (i : Nat) (e : Exn)
-  deriving DecidableEq, Repr
+  deriving DecidableEq, Repr, Hashable
 
 inductive MSt
   | solving
@@ -85,18 +86,18 @@ inductive MSt
   | crashed
   | dying                -- only without A1: terminated while blocked in `recv`, may still swallow a message
   | killed
-  deriving DecidableEq, Repr
+  deriving DecidableEq, Repr, Hashable
 
 /-- error raised by `Portfolio.solve` -/
 inductive Err
   | member (i : Nat) (e : Exn)   -- `raise res` (exit_on_exception)
   | allFailed                    -- the F25 repair: SolverReturnedUnknownResultError
-  deriving DecidableEq, Repr
+  deriving DecidableEq, Repr, Hashable
 
 inductive Cmd
   | query (q : Nat)      -- 0 = get_model, x+1 = get_value of item x
   | exit
-  deriving DecidableEq, Repr
+  deriving DecidableEq, Repr, Hashable
 
 inductive PSt
   | ready
@@ -106,11 +107,11 @@ inductive PSt
   | returned (v : Bool) (w : Nat)
   | raised (e : Err)
   | awaiting (v : Bool) (w q : Nat)
-  deriving DecidableEq, Repr
+  deriving DecidableEq, Repr, Hashable
 
 structure OS where
   killAtomic : Bool
-  deriving DecidableEq, Repr
+  deriving DecidableEq, Repr, Hashable
 
 structure Cfg where
   n : Nat                       -- number of members
@@ -126,7 +127,7 @@ structure State where
   reply : List (Nat × Nat)      -- (sender, query)
   p : PSt
   served : List (Nat × Nat)     -- replies the parent has received since the last solve
-  deriving DecidableEq, Repr
+  deriving DecidableEq, Repr, Hashable
 
 def init : State := ⟨0, [], [], [], [], .ready, []⟩
 
@@ -278,24 +279,25 @@ def pweight (n : Nat) : PSt → Nat
 def imeasure (s : State) : Nat :=
   (s.ms.map mweight).sum + s.queue.length + s.ctrl.length + pweight s.ms.length s.p
 
-/-- states reachable from the states in `frontier` by internal steps (depth-first, `fuel` bounds the
-    number of expansions; `imeasure` bounds the depth, so a generous fuel is always enough for ≤ 6 members) -/
-def closure : Nat → List State → List State → List State
+/-- states reachable from the states in the work list by internal steps (depth-first work list; `fuel` bounds the
+    number of expansions, `imeasure` bounds the depth, so the generous fuel of the driver is never exhausted for
+    ≤ 5 members) -/
+def closure : Nat → List State → Std.HashSet State → Std.HashSet State
   | 0, _, seen => seen
   | _ + 1, [], seen => seen
   | fuel + 1, s :: rest, seen =>
     if seen.contains s then closure fuel rest seen
-    else closure fuel (isuccs cfg s ++ rest) (s :: seen)
+    else closure fuel (isuccs cfg s ++ rest) (seen.insert s)
 
 /-- terminal states of the internal closure: where a call either is over or can never end -/
 def terminals (fuel : Nat) (s : State) : List State :=
-  (closure cfg fuel [s] []).filter (fun t => (isuccs cfg t).isEmpty)
+  (closure cfg fuel [s] {}).toList.filter (fun t => (isuccs cfg t).isEmpty)
 
 inductive Outcome
   | verdict (v : Bool)
   | error (e : Err)
   | blocked
-  deriving DecidableEq, Repr
+  deriving DecidableEq, Repr, Hashable
 
 def outcomeOf (s : State) : Outcome :=
   match s.p with
@@ -310,7 +312,7 @@ def solveOutcomes (fuel : Nat) (s : State) : List Outcome :=
 inductive QOutcome
   | servedBy (j : Nat) (winner : Nat) (q qAnswered : Nat)
   | qblocked
-  deriving DecidableEq, Repr
+  deriving DecidableEq, Repr, Hashable
 
 /-- outcomes of one `get_model/get_value` call in every terminal state of `solve()` that returned -/
 def queryOutcomes (fuel : Nat) (s : State) (q : Nat) : List QOutcome :=
